@@ -43,6 +43,49 @@ def e2eVerdict (s : Bytes) (aS bS : List Bytes) (hx : String) (out : List String
   else if !rawOK then s!"DIFF grpc.Method(ctx)-not-the-path-verbatim model=raw={hx}"
   else s!"OK nt {br}"
 
+/-- `esc <targethex> <svcs> => web=<entry>:<tok> http=<entry>:<tok>`: the same request line through the REAL root
+    `grpcbridge.NewWebBridge` as gRPC-Web (Content-Type application/grpc-web+proto ⇒ GRPCWebBridge ⇒ RouteGRPC) and as a
+    transcoded POST (⇒ TranscodedHTTPBridge ⇒ ServiceRouter.RouteHTTP); target "a" lists `svcs`, always pooled.
+    Specification (property text, fix D38): BOTH entries route by the path as written on the request line (the bytes before
+    the first '?') — owner of the service that path names, method string `"/" ++ strip path` — and net/http rejects a
+    line whose path has a malformed escape.  Model: `routeGRPC … (webName u)` / `routeHTTPsvc … POST u` on `parseTarget`. -/
+def escVerdict (t : Bytes) (svcs : List Bytes) (out : List String) : String :=
+  let routes : GB.C06.SvcName → Option GB.C06.SvcRoute := fun svc =>
+    if svcs.contains svc then some { target := [97], ver := 0, idx := 0 } else none
+  let pool : GB.C06.Name → Bool := fun _ => true
+  let gTok : GRPCRes → String
+    | .ok tg _ _ rpc => s!"F.{toHex tg}.{toHex rpc}"
+    | .status c => s!"S{c}"
+  let hTok : HTTPSvcRes → String
+    | .ok tg _ _ rpc _ _ => s!"F.{toHex tg}.{toHex rpc}"
+    | .status c _ => s!"S{c}"
+  let model : List String := match parseTarget t with
+    | none => ["web=R", "http=R"]
+    | some u => [s!"web=G:{gTok (routeGRPC pool routes (some (webName u)))}", s!"http=H:{hTok (routeHTTPsvc pool routes GB.C06.POST u)}"]
+  let accepted := match t with
+    | 47 :: _ => (unescapePath (targetPath t)).isSome
+    | _ => false
+  let spec : List String :=
+    if !accepted then ["web=R", "http=R"]
+    else match GB.C06.Hist.specParse (targetPath t) with
+      | some (svc, m) =>
+        if svcs.contains svc then
+          let f := s!"F.{toHex [97]}.{toHex (slash :: svc ++ slash :: m)}"
+          [s!"web=G:{f}", s!"http=H:{f}"]
+        else ["web=G:S12", "http=H:S5"]
+      | none => ["web=G:S12", "http=H:S5"]
+  let pth := targetPath t
+  let br := if !accepted then "b=esc-rejected" else if pth.contains percent then
+      (match unescapePath pth with
+        | some d => if (GB.C06.Hist.specParse d).map (·.1) ≠ (GB.C06.Hist.specParse pth).map (·.1) then "b=esc-service-differs-when-decoded"
+                    else "b=esc-method-differs-when-decoded"
+        | none => "b=esc-rejected")
+    else "b=esc-plain"
+  let nt := if accepted && pth.contains percent then " nt" else ""
+  if out ≠ spec then s!"VIOL esc impl={" ".intercalate out} spec={" ".intercalate spec}"
+  else if out ≠ model then s!"DIFF model={" ".intercalate model}"
+  else s!"OK{nt} {br}"
+
 /-- area c14:
     `parse <hex> => <ok> <svchex> <methodhex>`   routing.parseRPCName
     `hist …`                                      claim histories probed through every request form -/
@@ -65,6 +108,10 @@ def handle : Handler
     match parseHex hx, parseSvcs aL, parseSvcs bL with
     | some s, some aS, some bS => e2eVerdict s aS bS hx out
     | _, _, _ => "BAD c14 e2e"
+  | ["esc", hx, sL], out =>
+    match parseHex hx, parseSvcs sL with
+    | some t, some svcs => escVerdict t svcs out
+    | _, _ => "BAD c14 esc"
   | "hist" :: inp, out => GB.C06.Hist.judgeHist inp out
   | "stress" :: rest, out => GB.C11.handle ("stress" :: rest) out   -- contested-claim stress, judged by the C11 predicates
   | _, _ => "BAD c14 line"
